@@ -69,6 +69,7 @@ fn do_call(u: &Unimock, m: u32, a: u8) -> String {
         6 => <Unimock as G<u8>>::g(u, a).take(),
         7 => <Unimock as G<u16>>::g(u, a).take(),
         9 => take_triple(u.mt(a)),
+        40 => u.db(A8(a)).take(),
         38 => <Unimock as R1>::get::<u8>(u, a).take(),
         39 => <Unimock as R2>::get::<u8>(u, a).take(),
         #[cfg(feature = "dtrait")]
@@ -342,12 +343,17 @@ fn run_base_inner(slots: &mut Vec<Option<Unimock>>, unwinding: bool, base: &Base
                 return "invalid".into();
             }
             let _ = trace_take();
+            let dbg_before = DEBUG_RUNS.load(std::sync::atomic::Ordering::SeqCst);
             let r = call_any(&mut slots[i], m, a);
             let trace = trace_take();
             if r == "P:user:matcher" {
                 return r;
             }
             let items: Vec<String> = trace.iter().map(|(d, diag)| format!("{d}{}", if *diag { "d" } else { "" })).collect();
+            if m == 40 {
+                // the argument's Debug impl is user code: how often it ran during this call
+                return format!("{r} M[{}] D{}", items.join(","), DEBUG_RUNS.load(std::sync::atomic::Ordering::SeqCst) - dbg_before);
+            }
             format!("{r} M[{}]", items.join(","))
         }
         Base::Clone(i) => {
